@@ -124,8 +124,17 @@ def handle (vh vb : Variant) (j : Json) : IO Unit := do
     let bad := monitor P (Olla.Spec.C07.Ghost.init 0) (Olla.Spec.C07.Clause.all.map (fun _ => false)) h
     let agree := decide (impl = want) && impl.length == rawOps.length && dueOk
     let hist := " ".intercalate (ops.map opStr)
+    -- the scheduler honours the schedule it records (Spec.dueProbed / Props.due_probed); time boundaries within the
+    -- ambiguity slack were excluded above
+    let dueHeld := Olla.Spec.C07.dueProbed 0 h
     match ((Olla.Spec.C07.Clause.all.zip bad).find? (·.2)).map (·.1) with
-    | none => emit case agree true (branchOf h) "" (if agree then "" else s!"interval {interval / 1000000}ms [{hist}]")
+    | none =>
+      if !dueHeld then
+        emit case agree false (branchOf h) "due-check-not-run-by-the-scheduler"
+          s!"check_interval {interval / 1000000} ms, history [{hist}]: a scheduler firing at or after the recorded next-check time did not run the check; observed (ran reached status delay …) per step {impl.map (fun o => o.take 4)}"
+          (if agree then Json.null else toJson want.flatten)
+      else
+      emit case agree true (branchOf h) "" (if agree then "" else s!"interval {interval / 1000000}ms [{hist}]")
                 (if agree then Json.null else toJson want.flatten)
     | some k => emit case agree false (branchOf h) k.name
                   s!"check_interval {interval / 1000000} ms, history [{hist}] violates clause {k.name}; observed (ran reached status delay fired failures mult …) per step {impl.map (fun o => o.take 7)}"
